@@ -245,6 +245,68 @@ pub fn specs() -> Vec<PropSpec> {
             assumptions: COMMON_ASSUMPTIONS,
         },
         PropSpec {
+            id: "C12",
+            parts: &[("c12", 96, 6000)],
+            level: "fault_enumeration",
+            tags: &["C12"],
+            rule: "Each evaluation is one run in which the harness plays \
+                two remote children (kidA, kidB) of the CA 'testbed' and \
+                two publishers (pubA, pubB) of its publication server \
+                with identity keys of its own, builds RFC 6492 / RFC 8181 \
+                messages, signs them and hands the bytes to \
+                CaManager::rfc6492 / RepositoryManager::rfc8181. The \
+                simulated transport delivers: (i) the complete matrix \
+                claimed sender {kidA, kidB, unknown} x signing key {A's, \
+                B's, unregistered} x recipient {parent, other}; (ii) \
+                issuance within and beyond the entitlement and a \
+                revocation of the other child's key; (iii) 160 single-bit \
+                flips spread over a valid list request and 160 over a \
+                valid publish request (positions jittered by the seed); \
+                (iv) requests signed with the old and the new key after \
+                the child's identity was replaced, and after the parent \
+                replaced its own identity; (v) publication through the \
+                own and the other publisher's endpoint, into the own and \
+                the other's space, with the own, the other's, an \
+                unregistered and a replaced key. A request is acted upon \
+                iff its signature validates under the certificate \
+                registered for the claimed sender; a corrupted message \
+                may only be acted upon if it still decodes to the \
+                identical request; every refusal leaves a digest of the \
+                parent's version, child records, stored object set and \
+                repository content unchanged; replies must validate \
+                under the server's current identity key; list and \
+                issuance replies stay within the sender's entitlement / \
+                base URI. distinct_nontrivial counts distinct case \
+                labels exercised.",
+            assumptions: COMMON_ASSUMPTIONS,
+        },
+        PropSpec {
+            id: "C16",
+            parts: &[("c12", 96, 6000)],
+            level: "exploration",
+            tags: &["C16"],
+            rule: "Same runs as C12; every call into the endpoints runs \
+                under catch_unwind with Krill's process::exit calls turned \
+                into unwinds. Inputs: all C12 messages including the 320 \
+                bit flips; 22 structured-garbage contents (empty, binary, \
+                unclosed XML, wrong version/type, missing/huge/odd \
+                sender, entity declaration, 5000-deep nesting, 12 seeded \
+                byte mutations of a valid message) delivered raw AND as \
+                the content of a CMS validly signed by a registered \
+                child/publisher to both endpoints; 40 truncations / \
+                insertions / deletions / length-byte overwrites of a \
+                valid CMS; and about 250 API request bodies (ROA, ASPA, \
+                BGPsec and child-update JSON: hand-written edge cases - \
+                out-of-range numbers, impossible prefixes, reversed \
+                ranges, empty and 'inherit' resources, control \
+                characters - plus seeded byte mutations of valid wire \
+                bodies) decoded with serde into the API types and, if \
+                they decode, handed to the manager call. No panic, no \
+                exit; a refused input leaves configuration and published \
+                content unchanged; background work still runs afterwards.",
+            assumptions: COMMON_ASSUMPTIONS,
+        },
+        PropSpec {
             id: "C11",
             parts: &[("c11", 320, 6000), ("c11cuts", 16, 320)],
             level: "exploration",
@@ -431,6 +493,21 @@ pub fn run_profile(
         let res = std::thread::Builder::new()
             .stack_size(32 * 1024 * 1024)
             .spawn(move || crate::conc::run(seed, &profile, None))
+            .expect("spawn").join();
+        return match res {
+            Ok(report) => report,
+            Err(p) => RunReport {
+                seed,
+                profile: name.to_string(),
+                harness_error: Some(crate::util::panic_message(&p)),
+                ..Default::default()
+            }
+        }
+    }
+    if name == "c12" {
+        let res = std::thread::Builder::new()
+            .stack_size(64 * 1024 * 1024)
+            .spawn(move || crate::c12::run(seed))
             .expect("spawn").join();
         return match res {
             Ok(report) => report,
